@@ -1210,6 +1210,7 @@ fn main() {
     let prop = a.get("prop").cloned().unwrap_or_else(|| "C07".into());
     if let Some(f) = a.get("cases") {
         for line in std::fs::read_to_string(f).unwrap().lines() {
+            fbrh::util::crumb(line);
             if line.trim().is_empty() {
                 continue;
             }
